@@ -42,10 +42,24 @@ class Worker:
         self.error = None
         self.thread = threading.Thread(target=self._main, daemon=True)
 
+    def _tracer(self, frame, event, arg):
+        # line-granularity points: every source line of the selected library files executed by this worker is a visible operation
+        if frame.f_code.co_filename in self.run.trace_files:
+            return self._line
+        return None
+
+    def _line(self, frame, event, arg):
+        if event == 'line':
+            self.run.point('line', f'{os.path.basename(frame.f_code.co_filename)}:{frame.f_lineno}')
+        return self._line
+
     def _main(self):
         self.run.by_thread[threading.get_ident()] = self
         try:
             self.run.point('start', None)
+            if self.run.trace_files:
+                import sys
+                sys.settrace(self._tracer)
             self.result = ('ok', self.body())
         except _Abort:
             self.result = ('aborted', None)
@@ -65,8 +79,9 @@ class _Abort(BaseException):
 class Run:
     """one controlled execution"""
 
-    def __init__(self, root, bodies, choices, horizon=2000):
+    def __init__(self, root, bodies, choices, horizon=2000, trace_files=()):
         self.root = os.path.realpath(str(root))
+        self.trace_files = frozenset(trace_files)  # source files whose lines are scheduling points (pure in-memory races)
         self.workers = [Worker(self, i, n, b, sa) for i, (n, b, sa) in enumerate(bodies)]
         self.by_thread = {}
         self.choices = list(choices)
